@@ -81,6 +81,8 @@ type stats struct {
 	stackOff         int // WithStackTrace(false) spelled out
 	panicCapBites    int
 	panicEvicts      int // the panic event pushed an older event out / was refused by limit 0
+	peeks            int // reads of the span in the middle of the program
+	peeksLive        int // ... of a live span that holds attributes
 	distinctOffered  map[string]struct{}
 }
 
@@ -322,6 +324,14 @@ func panicTypeHint(kind int) string {
 }
 
 func (m *model) apply(op Op, v variant) {
+	if op.Op == "peek" {
+		// a read: no effect, before or after End.
+		m.st.peeks++
+		if !m.ended && len(m.attrs.order) > 0 {
+			m.st.peeksLive++
+		}
+		return
+	}
 	if m.ended {
 		m.st.afterEnd++
 		if op.Op == "end" {
